@@ -23,11 +23,15 @@ ANSI = re.compile(r"\x1b\[[0-9;]*m")
 def corrupt(rng, pkts, level):
     """returns a corrupted copy of a link's packet list (RDH fields and payload words)"""
     out = []
-    for r, p in pkts:
+    for n, (r, p) in enumerate(pkts):
         r = bytearray(r)
         p = bytearray(p)
         if rng.random() < level:
             k = rng.choice(["pages", "stop", "orbit", "prio", "trig", "bc", "hsize", "hsize", "reserved"])
+            if n == 0 and k in ("prio", "hsize", "reserved"):
+                # the first RDH0 of an input is vetted by the start-up code (D9): a link file that opens with a broken RDH0 is
+                # refused as a whole, which is not what this stream compares
+                k = "stop"
             if k == "pages":
                 struct.pack_into("<H", r, 36, rng.randrange(6))
             elif k == "stop":
@@ -275,8 +279,12 @@ def run(tier, seed):
         rb = rebase(toks, j["ranges"])
         by[(j["s"], j["kind"], j.get("link"))] = (rc, rb, j)
     d2 = set()
+    refused = 0
     for (s, kind, link), (rc, rb, j) in by.items():
         if kind == "merged" or not isinstance(rc, int) or rc < 0:
+            continue
+        if "Init processing failed" in res[jobs.index(j)][2]:
+            refused += 1          # input refused at start-up (first RDH0): nothing was analysed, nothing to compare
             continue
         mrc, mrb, mj = by[(s, "merged", None)]
         if not isinstance(mrc, int) or mrc < 0:
@@ -296,7 +304,7 @@ def run(tier, seed):
                                         "errors_of_other_links": {str(k): rb[k][:3] for k in others},
                                         "what": "a filtered run reports errors located in packets of another link / stave"})
     shutil.rmtree(tmp, ignore_errors=True)
-    chk.add_stream("cli-layouts", len(jobs), d2, [], distribution={"sets": ncli, "runs": len(jobs)})
+    chk.add_stream("cli-layouts", len(jobs), d2, [], distribution={"sets": ncli, "runs": len(jobs), "refused_at_start_up": refused})
     chk.cov["rule"] = ("dispatch-layouts: 2-5 conforming links (one clean, others corrupted in RDH fields and payload words), each set under contiguous / "
                        "round-robin / two random merges through the real dispatcher (threads), and each link alone through one sequential "
                        "LinkValidator; per-link message lists compared after re-basing offsets to (packet index, delta); modes all its / sanity "
